@@ -50,14 +50,14 @@ extern int __lsan_do_recoverable_leak_check(void) __attribute__((weak));
 
 /* ================================================================================================ */
 /* scenario description                                                                             */
-enum { OP_PUT, OP_DEL, OP_REG, OP_CAN, OP_CHG };
+enum { OP_PUT, OP_DEL, OP_REG, OP_CAN, OP_CHG, OP_RST };
 enum { R_S1, R_D1, R_D2, R_D3, NRES };
 static const char *res_names[NRES] = {"s1", "d1", "d2", "d3"};
 enum { P_CTL, P_1, P_2, P_PROBE, NPEER };
-#define MAXOPS 6
+#define MAXOPS 8
 struct op {
   uint8_t t, p, r;
-  uint16_t c;
+  uint16_t c; /* OP_CHG: number of changes; OP_RST: 0 = graceful stop, 1 = kill between two operations */
 };
 struct scn {
   char name[200];
@@ -82,6 +82,9 @@ op_str(const struct op *o, char *b, size_t n) {
     break;
   case OP_CAN:
     snprintf(b, n, "cancel(p%d,%s)", o->p, res_names[o->r]);
+    break;
+  case OP_RST:
+    snprintf(b, n, "%s", o->c ? "kill+restart" : "stop+restart");
     break;
   default:
     snprintf(b, n, "chg(%s)x%d", res_names[o->r], o->c);
@@ -118,11 +121,13 @@ struct sent {
   int8_t res;    /* resource whose registered token this datagram carries, -1 = no registered token matches */
   int8_t during; /* life 2: resource being changed when it was sent */
   uint8_t type, code, has_obs, round;
+  uint8_t life; /* history: 0 = the life before the first mid-history restart, 1 = the one after it, ... */
   int16_t op;
   uint32_t obs;
 };
 struct report {
-  int started, ops_complete, finished;
+  int seg, seg_first_op; /* history: which life this process is, and the operation it starts with (set by the parent) */
+  int started, ops_complete, finished; /* per life */
   int ncalls;    /* tracked calls performed (or about to be performed when died) */
   int died_at;   /* index of the call before which the process killed itself, 0 = did not */
   int calls_ops; /* ncalls when the last op had completed */
@@ -712,6 +717,7 @@ on_send(const ns_dgram_t *d) {
     e->has_obs = 1;
     e->obs = w_uint(ob);
     e->round = (uint8_t)cur_round;
+    e->life = (uint8_t)R->seg;
     e->op = (int16_t)cur_op;
     R->nsent++; /* published last: the entry is complete when the count says so */
   }
@@ -945,16 +951,44 @@ do_op(int i) {
   }
 }
 
+/* One life of the history: the operations from R->seg_first_op up to the next restart marker (then a graceful stop or a
+ * kill between two operations, as the marker says) or up to the end of the history (then as before: kill point / end). */
+static void *g_heap_shift[17 * (MAXOPS + 2)];
 static void
-life_first(int die_at) {
-  server_start(0);
+heap_shift(int life) {
+  /* All lives are forked from the same image, so the same allocation sequence yields the same addresses.  Subscription
+   * pointers are the keys of the observe file: let them differ between the incarnations as they do between real
+   * processes (blocks stay reachable from the array: no leak). */
+  for (int i = 0; i < 17 * life && i < (int)(sizeof g_heap_shift / sizeof g_heap_shift[0]); i++)
+    g_heap_shift[i] = malloc(sizeof(coap_subscription_t));
+}
+static void
+life_segment(int die_at) {
+  int seg = R->seg, a = R->seg_first_op;
+  heap_shift(seg);
+  T.die_at = die_at; /* counts tracked calls over all lives of the history; lies in the last operation */
+  cur_op = a ? a - 1 : -1;
+  server_start(seg > 0); /* a later life restores: its loader is an updater of the files like the call-outs */
+  for (int p = 0; p < NPEER; p++)
+    next_mid[p] += 0x100 * seg; /* the peers live on */
   T.enabled = 1;
-  T.die_at = die_at;
-  for (int i = 0; i < S->nops; i++) {
+  int i = a;
+  for (; i < S->nops && S->ops[i].t != OP_RST; i++) {
     cur_op = i;
     R->op_first_call[i] = R->ncalls + 1;
     do_op(i);
     R->ops_done = i + 1;
+  }
+  if (i < S->nops) { /* mid-history restart: this life ends here, the parent starts the next one on the same directory */
+    cur_op = i;
+    R->op_first_call[i] = R->ncalls + 1;
+    R->ops_done = i + 1;
+    R->ops_complete = 1;
+    if (S->ops[i].c)
+      _exit(137); /* killed between two operations: no shutdown code runs */
+    server_stop_gracefully();
+    R->finished = 1;
+    return;
   }
   R->op_first_call[S->nops] = R->ncalls + 1;
   R->calls_ops = R->ncalls;
@@ -973,6 +1007,7 @@ static void
 life_restart(int die_at) {
   T.die_at = die_at;
   cur_op = 100;
+  heap_shift(MAXOPS + (die_at ? 1 : 2));
   server_start(1);
   if (die_at && die_at == R->ncalls + 1) { /* killed right after coap_persist_startup returned */
     R->died_at = die_at;
@@ -1100,7 +1135,7 @@ run_life(int restart, const struct scn *scn, const char *dir, int die_at, struct
     if (restart)
       life_restart(die_at);
     else
-      life_first(die_at);
+      life_segment(die_at);
     fflush(stdout);
     _exit(0);
   }
@@ -1169,7 +1204,39 @@ helper_must(int st, int want_kill, const struct report *rep, const char *who) {
   _exit(98);
 }
 
-/* the crash free life 1 of a history is the same in every execution of that history: keep it */
+/* Runs the lives of a history one after the other on the same directory, each in its own process, all filling the same
+ * report (tracked calls, updaters, snapshots and sent values are numbered through).  The lives before a restart marker
+ * end the way the marker says; the last one is killed before tracked call die_at (0: it stops gracefully). */
+static void
+run_history(const struct scn *scn, const char *dir, int die_at, struct report *rep, int leakcheck, const char *what) {
+  int a = 0;
+  for (int seg = 0;; seg++) {
+    int b = a;
+    while (b < scn->nops && scn->ops[b].t != OP_RST)
+      b++;
+    int last = b == scn->nops;
+    int want_kill = last ? die_at != 0 : scn->ops[b].c != 0;
+    rep->seg = seg;
+    rep->seg_first_op = a;
+    rep->started = rep->ops_complete = rep->finished = 0;
+    char who[80];
+    snprintf(who, sizeof who, "life%d(%s%s)", seg + 1, what, last ? "" : want_kill ? ", killed before the next operation" : ", stopped before the next operation");
+    int sv = g_leakcheck;
+    g_leakcheck = leakcheck;
+    int st = run_life(0, scn, dir, die_at, rep);
+    g_leakcheck = sv;
+    helper_must(st, want_kill, rep, who);
+    if (last)
+      return;
+    if (rep->ops_done != b + 1 || rep->died_at || rep->in_upd) {
+      fprintf(stderr, "VX-HARNESS: mid-history-life-incomplete seg=%d ops_done=%d want=%d\n", seg, rep->ops_done, b + 1);
+      _exit(99);
+    }
+    a = b + 1;
+  }
+}
+
+/* the crash free history is the same in every execution of that history: keep its report */
 static int
 cache_path(const struct scn *scn, char *p, size_t n) {
   if (vx_in_replay() || scn->bound == 0)
@@ -1318,6 +1385,63 @@ explain_loss(const struct report *r1, int f, int peer, int res, const struct pfi
     snprintf(out, n, seen ? "vanished-between-updates" : "never-written");
 }
 
+/* why is a record that should be gone still in file f?  walks the updater boundaries of the history: the last call-out
+ * that had to take it out (after the last one that wrote it) either left it in, or it came back later */
+static void
+explain_stale(const struct report *r1, int f, int peer, int res, char *out, size_t n) {
+  const char *kept = NULL, *readded = NULL;
+  for (int j = 0; j < r1->nupd; j++) {
+    const struct upd *u = &r1->upd[j];
+    if (!u->done)
+      continue;
+    struct pfile pre, post;
+    parse_file(f, r1->blob + u->pre.off[f], u->pre.len[f], &pre);
+    parse_file(f, r1->blob + u->post.off[f], u->post.len[f], &post);
+    int was = pfile_has(f, &pre, peer, res), is = pfile_has(f, &post, peer, res);
+    int own_add = (f == F_DYN && u->type == U_DYN_ADDED && u->res == res) || (f == F_OBS && u->type == U_OBS_ADDED && u->res == res && u->peer == peer);
+    int remover = (u->type == U_RES_DELETED && u->res == res) || (f == F_OBS && u->type == U_OBS_DELETED && u->res == res && u->peer == peer);
+    if (own_add)
+      kept = readded = NULL;
+    else if (remover && is)
+      kept = upd_names[u->type];
+    else if (remover || (was && !is))
+      kept = readded = NULL;
+    else if (!was && is)
+      readded = upd_names[u->type];
+  }
+  if (kept)
+    snprintf(out, n, "kept-by:%s", kept);
+  else if (readded)
+    snprintf(out, n, "re-added-by:%s", readded);
+  else
+    snprintf(out, n, "no-call-out");
+}
+
+/* Observe values across the restarts inside the history: what an observation is sent in a later life is greater than
+ * everything it was sent in the lives before (since its registration) */
+static void
+judge_history_observe(const struct scn *scn, const struct report *r1) {
+  for (int j = 0; j < r1->nsent; j++) {
+    const struct sent *e = &r1->sent[j];
+    if (!e->life || e->res < 0)
+      continue;
+    int since = 0;
+    for (int i = 0; i < scn->nops && i <= e->op; i++)
+      if (scn->ops[i].t == OP_REG && scn->ops[i].p == e->peer && scn->ops[i].r == e->res)
+        since = i;
+    for (int i = 0; i < j; i++) {
+      const struct sent *b = &r1->sent[i];
+      if (b->peer != e->peer || b->res != e->res || b->life >= e->life || b->op < since)
+        continue;
+      if (!serial_gt(e->obs, b->obs)) {
+        vx_fail("observe-not-greater:after-restart:mid-history", "history %s: p%d/%s was sent Observe=%u in life %d, and Observe=%u after the restart (life %d, during operation #%d)",
+                scn->name, e->peer, res_names[e->res], b->obs, b->life + 1, e->obs, e->life + 1, e->op);
+        return;
+      }
+    }
+  }
+}
+
 static void
 forward_fails(const struct report *rep, const char *who) {
   for (int i = 0; i < rep->nfail; i++)
@@ -1370,7 +1494,11 @@ judge_restart(const struct scn *scn, const struct report *r1, const struct repor
     } else if (must && r2->get_code[d] != 69) {
       vx_fail("resource-unreachable:after-restart", "%s: %s exists after restart but GET answers code %d", who, res_names[d], r2->get_code[d]);
     } else if (!may && r2->exists[d]) {
-      snprintf(sig, sizeof sig, "stale-resource:%s", pfile_has(F_DYN, &final[F_DYN], 0, d) ? "still-in-file" : "not-in-file");
+      if (pfile_has(F_DYN, &final[F_DYN], 0, d)) {
+        explain_stale(r1, F_DYN, 0, d, why, sizeof why);
+        snprintf(sig, sizeof sig, "stale-resource:still-in-file:%s", why);
+      } else
+        snprintf(sig, sizeof sig, "stale-resource:not-in-file");
       vx_fail(sig, "%s: dynamic resource %s was deleted (acknowledged) but exists again after restart", who, res_names[d]);
     }
   }
@@ -1407,8 +1535,13 @@ judge_restart(const struct scn *scn, const struct report *r1, const struct repor
         }
       }
       if (!may && (n_ok || r2->sub[p][r])) {
-        snprintf(sig, sizeof sig, "stale-observation:%s", pfile_has(F_OBS, &final[F_OBS], p, r) ? "still-in-file" : "not-in-file");
-        vx_fail(sig, "%s: observation p%d/%s was cancelled / never made but is notified after restart", who, p, res_names[r]);
+        if (pfile_has(F_OBS, &final[F_OBS], p, r)) {
+          explain_stale(r1, F_OBS, p, r, why, sizeof why);
+          snprintf(sig, sizeof sig, "stale-observation:still-in-file:%s", why);
+        } else
+          snprintf(sig, sizeof sig, "stale-observation:not-in-file");
+        vx_fail(sig, "%s: observation p%d/%s was cancelled / never made but is notified after restart; obs file before restart: %d record(s)", who, p,
+                res_names[r], final[F_OBS].n);
       }
       if (may && n_ok) {
         /* (3) greater than everything this observation was sent before */
@@ -1446,14 +1579,13 @@ run(void *arg) {
   /* ---- dry run: the crash free life 1 ---- */
   int st, dry_cached = cache_load(scn, dry);
   if (!dry_cached) {
-    st = run_life(0, scn, dir, 0, dry);
-    helper_must(st, 0, dry, "life1(crash-free)");
+    run_history(scn, dir, 0, dry, 1, "crash-free");
     if (!vx_failed())
       cache_store(scn, dry);
   }
   int N = dry->calls_ops;
   int first = dry->op_first_call[scn->nops - 1];
-  vx_observe("life 1 crash free: %d tracked calls, last op makes calls %d..%d, %d updater call-outs, %d calls during graceful stop", N, first, N,
+  vx_observe("history crash free: %d tracked calls, last op makes calls %d..%d, %d updater call-outs, %d calls during graceful stop", N, first, N,
              dry->nupd, dry->ncalls - N);
   int M = scn->bound > 0 && vx_budget_left() > 0 ? (N - first + 1) + 1 : 0;
   int kk = choose_crash(M);
@@ -1461,10 +1593,7 @@ run(void *arg) {
   if (!kk) {
     if (dry_cached) { /* the files are needed, not only the report (leak verdict: given by the run that filled the cache) */
       memset(dry, 0, offsetof(struct report, blob));
-      g_leakcheck = 0;
-      st = run_life(0, scn, dir, 0, dry);
-      g_leakcheck = 1;
-      helper_must(st, 0, dry, "life1(crash-free)");
+      run_history(scn, dir, 0, dry, 0, "crash-free");
     }
     r1 = dry;
     vx_observe("no kill: graceful coap_persist_stop + coap_free_context");
@@ -1473,14 +1602,14 @@ run(void *arg) {
     vx_nontrivial();
     wipe_dir(dir, 0);
     r1 = rep_alloc();
-    st = run_life(0, scn, dir, die_at, r1);
-    helper_must(st, 1, r1, "life1(kill)");
+    run_history(scn, dir, die_at, r1, 0, "kill"); /* leak verdicts of the earlier lives: given by the crash free run */
     if (r1->died_at != die_at || memcmp(r1->kinds + 1, dry->kinds + 1, (size_t)(die_at <= N ? die_at : N)) || r1->nupd > dry->nupd) {
       fprintf(stderr, "VX-HARNESS: life1-not-deterministic died_at=%d want=%d\n", r1->died_at, die_at);
       _exit(99);
     }
   }
-  forward_fails(r1, "life 1");
+  forward_fails(r1, "history");
+  judge_history_observe(scn, r1);
 
   /* ---- what was acknowledged ---- */
   struct model pre, post;
@@ -1579,7 +1708,7 @@ run(void *arg) {
   forward_fails(r2, "life 2");
   char ss[600];
   sent_summary(r1, ss, sizeof ss);
-  vx_observe("Observe values sent in life 1:%s", ss[0] ? ss : " none");
+  vx_observe("Observe values sent in the history:%s", ss[0] ? ss : " none");
   sent_summary(r2, ss, sizeof ss);
   vx_observe("after restart: exists s1=%d d1=%d d2=%d d3=%d; notifications:%s", r2->exists[0], r2->exists[1], r2->exists[2], r2->exists[3],
              ss[0] ? ss : " none");
@@ -1664,6 +1793,7 @@ struct gen {
   int live[NRES], ever[NRES];
   int obs[NPEER][NRES];
   int peer_seen[NPEER];
+  int nreal, nrst, nkill; /* operations / restart markers / restart markers that are kills so far */
 };
 static void
 emit(const struct op *ops, int n, int f, int bound, int lives) {
@@ -1686,17 +1816,32 @@ emit(const struct op *ops, int n, int f, int bound, int lives) {
   }
 }
 static int gen_depth, gen_f;
+static int gen_rst_depth, gen_rst_max, gen_rst_kill_depth; /* histories with restart markers: operations, markers, operations when a marker is a kill */
 static int (*gen_policy)(const struct op *ops, int n, int *bound, int *lives);
 static void
 gen_rec(struct gen *g, struct op *ops, int n) {
-  if (n) {
+  if (n && ops[n - 1].t != OP_RST) { /* a restart as the last thing is the judged restart itself */
     int bound = 1, lives = 2;
     if (gen_policy(ops, n, &bound, &lives))
       emit(ops, n, gen_f, bound, lives);
   }
-  if (n == gen_depth)
-    return;
   struct gen sv = *g;
+  /* restart between two operations: graceful stop or kill, then coap_persist_startup in a fresh process; the state carries over */
+  if (n && ops[n - 1].t != OP_RST && g->nrst < gen_rst_max) {
+    for (int k = 0; k < 2; k++) {
+      if (g->nreal >= (k || g->nkill ? gen_rst_kill_depth : gen_rst_depth))
+        continue; /* no room for an operation after it */
+      g->nrst++;
+      g->nkill += k;
+      ops[n] = (struct op){OP_RST, 0, 0, (uint16_t)k};
+      gen_rec(g, ops, n + 1);
+      *g = sv;
+    }
+  }
+  if (g->nreal >= (g->nkill ? gen_rst_kill_depth : g->nrst ? gen_rst_depth : gen_depth))
+    return;
+  g->nreal++;
+  sv = *g;
   /* put */
   for (int d = R_D1; d < NRES; d++) {
     if (g->live[d])
@@ -1772,9 +1917,34 @@ generate(int f, int depth, int (*policy)(const struct op *, int, int *, int *)) 
 }
 
 static int T_full_depth, T_free_depth, T_lives3_depth, T_double_depth;
+static int T_rst_full_depth, T_rst_free_depth, T_rst_lives3_depth, T_rst_kill_depth, T_rst2_depth;
 static int
 policy(const struct op *ops, int n, int *bound, int *lives) {
-  (void)ops;
+  int nrst = 0, nkill = 0;
+  for (int i = 0; i < n; i++)
+    if (ops[i].t == OP_RST) {
+      nrst++;
+      nkill += ops[i].c != 0;
+    }
+  if (nrst) { /* histories that continue after a restart: depth = number of operations, the markers not counted */
+    n -= nrst;
+    if (nrst > 1 && n > T_rst2_depth)
+      return 0;
+    if (nkill && n > T_rst_kill_depth)
+      return 0;
+    if (n <= T_rst_lives3_depth) {
+      *bound = 1; /* a kill in the last operation or a kill in the judged restart */
+      *lives = 3;
+    } else if (n <= T_rst_full_depth) {
+      *bound = 1;
+      *lives = 2;
+    } else if (n <= T_rst_free_depth) {
+      *bound = 0;
+      *lives = 2;
+    } else
+      return 0;
+    return 1;
+  }
   if (n <= T_double_depth) {
     *bound = 2; /* a kill in life 1 and a kill in the restart */
     *lives = 3;
@@ -1809,8 +1979,31 @@ main(int argc, char **argv) {
     T_lives3_depth = atoi(e);
   if ((e = getenv("C17_DOUBLE_DEPTH")))
     T_double_depth = atoi(e);
+  /* histories with a restart between two operations (depths count the operations, not the restart markers) */
+  T_rst_full_depth = Tq ? 3 : 2;   /* kill points in the last operation */
+  T_rst_free_depth = Tq ? 4 : 3;   /* no kill after the mid-history restart */
+  T_rst_lives3_depth = Tq ? 2 : 0; /* kill in the judged restart as well */
+  T_rst_kill_depth = Tq ? 4 : 3;   /* the mid-history restart may follow a kill between two operations instead of a graceful stop */
+  T_rst2_depth = Tq ? 3 : 0;       /* two mid-history restarts */
+  if ((e = getenv("C17_RST_FULL_DEPTH")))
+    T_rst_full_depth = atoi(e);
+  if ((e = getenv("C17_RST_FREE_DEPTH")))
+    T_rst_free_depth = atoi(e);
+  if ((e = getenv("C17_RST_LIVES3_DEPTH")))
+    T_rst_lives3_depth = atoi(e);
+  if ((e = getenv("C17_RST_KILL_DEPTH")))
+    T_rst_kill_depth = atoi(e);
+  if ((e = getenv("C17_RST2_DEPTH")))
+    T_rst2_depth = atoi(e);
   static const int freqs[3] = {1, 2, 10};
   int maxd = T_full_depth > T_free_depth ? T_full_depth : T_free_depth;
+  gen_rst_depth = T_rst_full_depth > T_rst_free_depth ? T_rst_full_depth : T_rst_free_depth;
+  gen_rst_kill_depth = T_rst_kill_depth < gen_rst_depth ? T_rst_kill_depth : gen_rst_depth;
+  gen_rst_max = gen_rst_depth < 2 ? 0 : T_rst2_depth >= 3 ? 2 : 1;
+  if (gen_rst_depth + gen_rst_max > MAXOPS || maxd > MAXOPS) {
+    fprintf(stderr, "depths exceed MAXOPS\n");
+    return 2;
+  }
   for (int fi = 0; fi < 3; fi++)
     generate(freqs[fi], maxd, policy);
   /* stable sort by depth so that the first counterexample found for a signature is a short history */
@@ -1842,11 +2035,23 @@ main(int argc, char **argv) {
   }
   struct vx_config *vcs = calloc((size_t)nscn, sizeof *vcs);
   void **args = calloc((size_t)nscn, sizeof *args);
-  int byd[MAXOPS + 1] = {0};
+  int byd[MAXOPS + 1] = {0}, byd_rst[MAXOPS + 1] = {0}, n_rst = 0, n_rst2 = 0, n_rstk = 0;
   for (int i = 0; i < nscn; i++) {
     vcs[i] = (struct vx_config){.scenario = scns[i].name, .bound = scns[i].bound, .leakcheck = 0};
     args[i] = &scns[i];
-    byd[scns[i].nops]++;
+    int nr = 0, nk = 0;
+    for (int j = 0; j < scns[i].nops; j++)
+      if (scns[i].ops[j].t == OP_RST) {
+        nr++;
+        nk += scns[i].ops[j].c != 0;
+      }
+    if (nr)
+      byd_rst[scns[i].nops - nr]++;
+    else
+      byd[scns[i].nops]++;
+    n_rst += nr > 0;
+    n_rst2 += nr > 1;
+    n_rstk += nk > 0;
   }
   struct vx_scn_stats stt;
   vx_explore_multi("c17:all", vcs, args, nscn, run, 0, &stt);
@@ -1856,6 +2061,15 @@ main(int argc, char **argv) {
       char k[40];
       snprintf(k, sizeof k, "histories_depth_%d", d);
       vx_ev_int(k, byd[d]);
+    }
+  vx_ev_int("histories_with_mid_history_restart", n_rst);
+  vx_ev_int("histories_with_two_mid_history_restarts", n_rst2);
+  vx_ev_int("histories_with_kill_before_mid_history_restart", n_rstk);
+  for (int d = 1; d <= MAXOPS; d++)
+    if (byd_rst[d]) {
+      char k[60];
+      snprintf(k, sizeof k, "histories_with_mid_history_restart_depth_%d", d);
+      vx_ev_int(k, byd_rst[d]);
     }
   return vx_finish();
 }
